@@ -5,6 +5,9 @@ mod c10;
 mod c16;
 mod circ;
 mod corpus;
+mod evalrec;
+mod pgen;
+mod proj;
 mod util;
 
 fn main() {
@@ -23,6 +26,9 @@ fn main() {
         "onoff" => c04::cmd_onoff(rest),
         "intops-replay" => c03::cmd_replay(rest),
         "intops-record" => c03::cmd_record(rest),
+        "eval-corpus" => evalrec::cmd_eval_corpus(rest),
+        "eval-gen" => evalrec::cmd_eval_gen(rest),
+        "eval-file" => evalrec::cmd_eval_file(rest),
         "c16-replay" => c16::cmd_replay(rest),
         "c16-products" => c16::cmd_products(rest),
         "compile-one" => corpus::cmd_compile_one(rest),
